@@ -14,7 +14,7 @@ import numpy as np
 
 OPS = {"+": operator.add, "-": operator.sub, "*": operator.mul, "/": operator.truediv, "**": operator.pow}
 LEAVES = ["P2", "P3", "PT", "int", "float"]
-SPECIAL = [1, 0.5, 1.0, 3]  # numbers that are neutral for some operator on one side (1 * x, x ** 1, x / 1) and not on the other (1 ** x, 1 / x)
+SPECIAL = [1, 0.5, 3, 0.25]  # numbers that are neutral for some operator on one side (1 * x, x ** 1, x / 1) and not on the other (1 ** x, 1 / x)
 
 RULE = (
     "cases = batches of expression trees over {+,-,*,/,**} and leaves {2-D Parameter, 3-D Parameter, "
